@@ -253,6 +253,15 @@ func installOracle(ir, ref *installRun, faults []simfs.Fault, rollbackFaulted bo
 		}
 		return vs
 	}
+	// A single injected removal failure is transient (the next attempt on the same path succeeds). In
+	// a workload that succeeds without faults it hits a forward step, and the rollback that follows has
+	// no failed step of its own: nothing may remain, not even the path whose removal failed once. The
+	// path is excused only when a rollback step was faulted, or when everything was published already
+	// (the failed removal is cleanup after publication).
+	excuse := rollbackFaulted || allPublished || ops.Get(r.Cfg.Op).NaturalFail
+	if !excuse {
+		unremovable = map[string]bool{}
+	}
 	strictOK := true
 	var strictDetail []string
 	for _, ch := range changes {
@@ -305,7 +314,9 @@ func installOracle(ir, ref *installRun, faults []simfs.Fault, rollbackFaulted bo
 				continue
 			}
 			abs := filepath.Join(r.Env.Root, k)
-			if strings.Contains(errText, abs) || (simfs.HiddenAncestor(filepath.Dir(k)) && strings.Contains(errText, filepath.Dir(abs))) {
+			// named by its path - absolute, or relative to the directory the call works in (the cheat-sheet
+			// batch publishes into "."): the backup directory's own name is what identifies it
+			if strings.Contains(errText, abs) || (simfs.HiddenAncestor(filepath.Dir(k)) && (strings.Contains(errText, filepath.Dir(abs)) || strings.Contains(errText, string(filepath.Separator)+filepath.Base(filepath.Dir(abs))))) {
 				found = true
 			}
 		}
